@@ -45,7 +45,7 @@ func genC06Batch(maxProbes int) func(t *rapid.T) C06Batch {
 		c := C06Batch{Keys: kit.GenKeyUniverse(t, 1, 8), CacheN: rapid.SampledFrom([]int{0, 100}).Draw(t, "cache")}
 		n := rapid.IntRange(1, maxProbes).Draw(t, "nprobes")
 		for i := 0; i < n; i++ {
-			p := C06Probe{Kind: rapid.SampledFrom([]string{"random", "random", "trunc", "flip", "wrongkey", "replay", "reflect", "badatyp", "corruptaddr", "shortheader", "postdial"}).Draw(t, "kind")}
+			p := C06Probe{Kind: rapid.SampledFrom([]string{"random", "random", "trunc", "flip", "wrongkey", "replay", "reflect", "badatyp", "corruptaddr", "shortheader", "postdial", "postdial_fin"}).Draw(t, "kind")}
 			p.KeyIdx = rapid.IntRange(0, len(c.Keys)-1).Draw(t, "key")
 			p.Seed = rapid.Int64Range(1, 1<<40).Draw(t, "seed")
 			p.PayloadLen = rapid.SampledFrom([]int{0, 1, 30, 1000, 20000}).Draw(t, "plen")
@@ -60,6 +60,9 @@ func genC06Batch(maxProbes int) func(t *rapid.T) C06Batch {
 				p.Arg = rapid.SampledFrom([]int{0, 2, 5, 255}).Draw(t, "atyp")
 			case "shortheader":
 				p.Arg = rapid.IntRange(1, 6).Draw(t, "hdrlen")
+			case "postdial", "postdial_fin":
+				// where the mid-relay chunk is corrupted: 0 = length block, 1 = length tag, 2 = payload, 3 = payload tag
+				p.Arg = rapid.IntRange(0, 3).Draw(t, "where")
 			}
 			p.Client = rapid.SampledFrom([]string{"hold", "hold", "fin"}).Draw(t, "client")
 			p.FinAfterMs = rapid.SampledFrom([]int{0, 5, 60, 120}).Draw(t, "finAfter")
@@ -153,14 +156,23 @@ func c06Wire(w *c06World, p C06Probe, attempt int64) (wire []byte, class string,
 		wire[key.SaltSize()+18+int(seed%23)] ^= 0x10
 	case "shortheader":
 		wire = kit.EncodeStream(key, kit.DetBytes(seed, key.SaltSize()), addr[:min(p.Arg, len(addr)-1)], nil)
-	case "postdial":
+	case "postdial", "postdial_fin":
 		e := kit.NewStreamEncoder(key, kit.DetBytes(seed, key.SaltSize()))
 		wire = e.Chunk(append(append([]byte(nil), addr...), "first"...))
 		bad := e.Chunk([]byte("second chunk, corrupted on the wire"))
-		bad[len(bad)-3] ^= 0x40
+		switch p.Arg {
+		case 0:
+			bad[0] ^= 0x40 // length block
+		case 1:
+			bad[2+5] ^= 0x40 // length tag
+		case 2:
+			bad[18+4] ^= 0x40 // payload
+		default:
+			bad[len(bad)-3] ^= 0x40 // payload tag
+		}
 		wire = append(wire, bad...)
 		wire = append(wire, e.Chunk([]byte("third"))...)
-		return wire, "postdial", nil
+		return wire, p.Kind, nil
 	}
 	var matched *kit.Key
 	if len(wire) >= 50 {
@@ -226,14 +238,18 @@ func c06One(w *c06World, p C06Probe, cacheOn bool, attempt int64) (f *kit.Findin
 	}
 	desc := fmt.Sprintf("%s/%s arg=%d len=%d", p.Kind, p.Client, p.Arg, len(wire))
 
-	if class == "postdial" || class == "drain" {
+	if class == "postdial" || class == "postdial_fin" || class == "drain" {
 		// must stay open and silent while the client keeps the connection open
 		var ptc *net.TCPConn
-		if class == "postdial" {
+		if class == "postdial" || class == "postdial_fin" {
 			if ptc = w.tgt.Accept(5 * time.Second); ptc == nil {
 				return kit.Violation("drain:no-target-connection", "valid request (%s) did not reach the target", desc), true, class
 			}
 			defer ptc.Close()
+			if class == "postdial_fin" {
+				// an ordinary server: when the proxy half-closes, it is done and closes, too
+				go func() { io.Copy(io.Discard, ptc); ptc.Close() }()
+			}
 		}
 		n, err := readUntil(t0.Add(c06T + 450*time.Millisecond))
 		if n > 0 {
@@ -306,7 +322,7 @@ func runC06Batch(c C06Batch, info *kit.Info) *kit.Finding {
 	classes := make([]string, len(c.Probes))
 	var wg sync.WaitGroup
 	for i := range c.Probes {
-		if c.Probes[i].Kind == "replay" || c.Probes[i].Kind == "postdial" {
+		if c.Probes[i].Kind == "replay" || c.Probes[i].Kind == "postdial" || c.Probes[i].Kind == "postdial_fin" {
 			continue // these use the shared target's accept queue: run sequentially below
 		}
 		wg.Add(1)
@@ -317,7 +333,7 @@ func runC06Batch(c C06Batch, info *kit.Info) *kit.Finding {
 	}
 	wg.Wait()
 	for i := range c.Probes {
-		if c.Probes[i].Kind == "replay" || c.Probes[i].Kind == "postdial" {
+		if c.Probes[i].Kind == "replay" || c.Probes[i].Kind == "postdial" || c.Probes[i].Kind == "postdial_fin" {
 			res[i], hit[i], classes[i] = c06One(w, c.Probes[i], c.CacheN > 0, 0)
 		}
 	}
